@@ -549,12 +549,21 @@ def run_check(plugin_mod, tier, seed, replay=None):
     # canaries: corrupted implementation outputs that the decider must reject (guards against a vacuous decider)
     canary_total = canary_rejected = 0
     canary_accepted = []
-    if hasattr(pl, "canary") and ob["ok"] and good and not replay:
+    canary_kind = "plugin" if hasattr(pl, "canary") else "swap"
+    if ob["ok"] and good and not replay:
         step = max(1, len(good) // 300)
         cans = []
-        for r in good[::step]:
-            for bad in pl.canary(humans[r["idx"]], r) or []:
-                cans.append((r, bad))
+        if hasattr(pl, "canary"):
+            for r in good[::step]:
+                for bad in pl.canary(humans[r["idx"]], r) or []:
+                    cans.append((r, bad))
+        else:
+            # generic canary for plugins without their own: the output observed on ANOTHER input of the same suite
+            # (a decider that accepts most of these says little); reported, never a failure by itself
+            sample = good[::step]
+            for a, b in zip(sample, sample[1:] + sample[:1]):
+                if a.get("suite") == b.get("suite") and a["cout"] != b["cout"] and a["cin"] != b["cin"]:
+                    cans.append((a, b["cout"]))
         if cans:
             try:
                 _, cdb, _ = eval_grouped(pl, [c[0] for c in cans], [c[1] for c in cans])
@@ -596,6 +605,8 @@ def run_check(plugin_mod, tier, seed, replay=None):
             "decider_failures": len(dec_bad),
             "outside_proved_class": len(good) - len([r for r in good if r["idx"] in incl]),
             "hangs": len(hangs),
+            "canaries_kind": canary_kind + (" (outputs the plugin corrupts on purpose: all must be rejected)" if canary_kind == "plugin" else
+                                            " (the output observed on a different input of the same suite; most should be rejected)"),
             "canaries_corrupted_outputs": canary_total, "canaries_rejected_by_decider": canary_rejected,
             "canaries_accepted_samples": canary_accepted,
             "by_shape": shapes,
